@@ -89,6 +89,10 @@ def gen_C05(chk):
             chk.cases[a]["same_as_plain"] = s
         m = mutate(s, rng)
         add_parse(chk, m, ext, "mutated")
+    # the plain minimising parser (the one behind the plain entry points) rejects extended syntax too
+    for s_ in ["%p%", "a & %p%", "!{x} in %d%: AX {x}", "\\forall {x} in %d%: (@{x}: EF a)", "3{x}: @{x}: %w%", "V{x} in %d%: a"]:
+        for flag in ("0", "1"):
+            chk.add_front("PREP", [flag, ",".join(gen.hx(p_) for p_ in ["a", "b"]), gen.hx(s_)], tag="prep-ext-syntax")
     # identifier shapes
     shapes = ["AX_a", "EX_a", "AU_x", "EW_", "AG_on", "EF_1", "AF__", "A_X", "EG_G", "AW_AW", "_AX",
               "EX", "EXa", "EXX", "E", "A", "EU", "AUx", "AW1", "3", "3a", "V", "Vx", "V_", "_", "__x",
@@ -346,6 +350,16 @@ def gen_nonuniform_support(chk):
                 chk.add_eval(net, k, "s" + rng.choice(["N", "M"]), [f], tag="nonuniform", netname=nm)
 
 
+def gen_C14_cli(chk):
+    from .shellprops import gen_cli_single_operator_files
+    gen_cli_single_operator_files(chk)
+
+
+def judge_shell_(chk):
+    from .shellprops import judge_shell
+    judge_shell(chk)
+
+
 def break_scoping(t, rng):
     subs = list(gen.subtrees(t))
     target = rng.choice(subs)
@@ -520,6 +534,22 @@ def gen_C09(chk):
             continue
         chk.add_front("DUPS", ["1", ",".join(gen.hx(p) for p in props), ",".join(gen.hx(gen.render(f)) for f in fs)],
                       tag="dups", meta={"fs": fs})
+    # sub-formulae of several kB (state descriptions of large models) with a free variable, under
+    # different domains and under none
+    def clause(i):
+        ls = [gen.T("P", n_) if (i >> j_) & 1 else ("U", "Not", gen.T("P", n_)) for j_, n_ in enumerate(["a", "b", "v3"])]
+        return ("B", "And", ls[0], ("B", "And", ls[1], ls[2]))
+    desc = clause(0)
+    for i in range(1, 200):
+        desc = ("B", "Or", clause(i % 8), desc)
+
+    def bigbody(v):
+        return ("B", "And", ("U", "AX", gen.T("V", v)), ("U", "EF", ("B", "And", gen.T("V", v), desc)))
+    long_batches = [[("H", "Bind", "x", "d", bigbody("x")), ("H", "Bind", "x", None, bigbody("x"))],
+                    [("H", "Bind", "x", None, bigbody("x")), ("H", "Bind", "x", None, ("U", "AG", ("H", "Exists", "y", None, bigbody("y"))))]]
+    for fs in long_batches:
+        chk.add_front("DUPS", ["1", ",".join(gen.hx(p) for p in props), ",".join(gen.hx(gen.render(f)) for f in fs)],
+                      tag="dups-long", meta={"fs": fs})
     # twins that differ in one operator only must not be identified
     a_, b_ = gen.T("P", "a"), ("U", "EF", gen.T("P", "b"))
     for o1, o2 in [("EW", "AW"), ("EU", "AU"), ("EU", "EW"), ("AU", "AW"), ("And", "Or"), ("Imp", "Iff"), ("Xor", "Or")]:
@@ -686,6 +716,10 @@ def gen_C14(chk):
                 need |= wl | dl
             ctx = [(l, ctx_spec(rng)) for l in sorted(need) if rng.random() < 0.9]
             chk.add_eval(net, k, "e" + rng.choice(["s", ""]), fs, ctx=ctx, tag="ext-batch", netname=nm)
+        # extended-only syntax through the plain entry points: an error, not an answer or a panic
+        for s_ in ["%p%", props[0] + " & %p%", "!{x} in %d%: AX {x}", "3{x}: @{x}: %p%"]:
+            for mode in ("s", "", "u", "st"):
+                chk.add_eval(net, 1, mode, [s_], ctx=[("p", "u"), ("d", "u")], tag="plain-entry-ext-syntax", netname=nm)
         # the self-loop-free entry point validates its input like the others
         for j in range(cnt(chk, 6, 20)):
             f = gen.random_formula(rng, rng.randint(1, 6), props + (["nope"] if rng.random() < 0.1 else []), max_vars=3, w_hybrid=0.5)
@@ -747,5 +781,5 @@ REGISTRY = {
     "C07": runner([gen_C07, gen_nonuniform_support], lambda c: (judge_C07(c), judge_all(c))),
     "C08": runner([gen_C08], judge_C08),
     "C09": runner([gen_C09], judge_C09),
-    "C14": runner([gen_C14, gen_nonuniform_support], judge_C14),
+    "C14": runner([gen_C14, gen_nonuniform_support, gen_C14_cli], lambda c: (judge_C14(c), judge_shell_(c))),
 }
